@@ -309,7 +309,7 @@ func (c12Stream) Generate(rng *rand.Rand, n int, thorough bool) []Case {
 			// sockets must be closed all the same (the writes to them failed)
 			cs = append(cs, Case{Line: fmt.Sprintf("c12 kind=stalled conns=%d tls=0", 1+rng.Intn(4)), Kind: "stalled"})
 		case 0:
-			cs = append(cs, Case{Line: "c12 kind=stopBeforeRun", Kind: "stopBeforeRun"})
+			cs = append(cs, Case{Line: "c12 kind=stopBeforeRun tlsshape=" + []string{"none", "none", "nocert", "static"}[rng.Intn(4)], Kind: "stopBeforeRun"})
 		case 1:
 			cs = append(cs, Case{Line: fmt.Sprintf("c12 kind=stopTwice conns=%d", rng.Intn(4)), Kind: "stopTwice"})
 		case 2:
@@ -377,9 +377,20 @@ func (c12Stream) Impl(c Case) string {
 		addr := freeAddr()
 		_ = srv.Stop()
 		errc := make(chan error, 1)
-		go func() { errc <- srv.Run(addr) }()
+		var ropts []gldap.Option
+		switch p["tlsshape"] {
+		case "nocert":
+			ropts = append(ropts, gldap.WithTLSConfig(&tls.Config{MinVersion: tls.VersionTLS12}))
+		case "static":
+			ropts = append(ropts, gldap.WithTLSConfig(srvTLS))
+		}
+		go func() { errc <- srv.Run(addr, ropts...) }()
 		select {
 		case e := <-errc:
+			if e != nil && portFree(addr) {
+				// (an error is Run's business as long as nothing is left behind)
+				e = nil
+			}
 			if e != nil {
 				fail("Run after Stop returned an error: %v", e)
 			}
